@@ -8,7 +8,11 @@ type CharClassItem struct {
 	To   rune
 }
 
-func (i *CharClassItem) RunPass(ctx *Context, pass Pass) {}
+func (i *CharClassItem) RunPass(ctx *Context, pass Pass) {
+	if pass == Check && i.From > i.To {
+		ctx.Errs.Errorf(ctx.Position(i), "invalid character range: lower bound is above upper bound")
+	}
+}
 
 type CharClass struct {
 	baseAST
